@@ -27,6 +27,14 @@ Theorem gen_branch_is_model : forall n point coeffs grads,
   branch n point coeffs grads = map2 gen_branch_coord point (lincomb n coeffs grads).
 Proof. intros. unfold branch. rewrite vadd_map2. reflexivity. Qed.
 
+(** ... so the whole batch ask() returns is, row by row and coordinate by coordinate, the source's expression *)
+Theorem gen_ask_is_model : forall (c : gae_cfg) (s : gae) (coeffs : list (list Q)) (g : list vec),
+  jac s = Some g ->
+  gae_ask c s coeffs = Ok (map (fun cs => map2 gen_branch_coord (theta s) (lincomb (g_n c) cs g)) coeffs).
+Proof.
+  intros c s coeffs g Hj. unfold gae_ask. rewrite Hj. f_equal. apply map_ext. intros cs. apply gen_branch_is_model.
+Qed.
+
 (** tell: gradient_step = new_mean - theta *)
 Theorem gen_step_is_model : forall new_mean th, vsub new_mean th = map2 gen_step_coord new_mean th.
 Proof. intros. rewrite vsub_map2. reflexivity. Qed.
@@ -63,6 +71,7 @@ Qed.
 
 Print Assumptions gen_normalise_is_model.
 Print Assumptions gen_branch_is_model.
+Print Assumptions gen_ask_is_model.
 Print Assumptions gen_step_is_model.
 Print Assumptions gen_moves_is_model.
 Print Assumptions gen_tell_phases_are_model.
